@@ -227,6 +227,18 @@ def run_case(case):
         out["ord_path"] = guarded(only_path)
         out["ord_plain"] = guarded(lambda: {k: [s.id for s in v] for k, v in c.get_ordered_segments_in_groups([gid]).items()})
         out["resolved"] = guarded(lambda: list(c.get_all_segments_in_group(gid)))
+    # the selection given in other forms: a str, a one-element tuple, a tuple of several ids
+    def form(sel):
+        o, cum, pp, pd = c.get_ordered_segments_in_groups(sel, include_cumulative_lengths=True, include_path_lengths=True)
+        return [[k, [s.id for s in o[k]], [q(float(x)) for x in cum[k]], [[i, q(float(x))] for i, x in pp[k].items()],
+                 [[i, q(float(x))] for i, x in pd[k].items()]] for k in o.keys()]
+    forms = []
+    if gid is not None:
+        forms += [["list-of-one", guarded(lambda: form([gid]))], ["str", guarded(lambda: form(gid))],
+                  ["tuple-of-one", guarded(lambda: form((gid,)))]]
+    for sel in case.get("multi", [])[:1]:
+        forms += [["list", guarded(lambda sel=sel: form(list(sel)))], ["tuple", guarded(lambda sel=sel: form(tuple(sel)))]]
+    out["ord_forms"] = forms
     # several groups in one call (a list of selections; each selection is a list of group ids)
     def multi(sel):
         o, cum, pp, pd = c.get_ordered_segments_in_groups(list(sel), include_cumulative_lengths=True, include_path_lengths=True)
@@ -298,6 +310,23 @@ def self_writes():
                         (isinstance(v, ast.Call) and isinstance(v.func, ast.Name) and v.func.id == "vars" and v.args and is_self(v.args[0])):
                     ws.add("?")
         table.append([f.name, sorted(ws)])
+    # class-level attributes of Cell bound to a mutable container (shared by all cells of the process)
+    shared = []
+    for n in cell[0].body:
+        tg, val = None, None
+        if isinstance(n, ast.Assign):
+            tg, val = n.targets, n.value
+        elif isinstance(n, ast.AnnAssign) and n.value is not None:
+            tg, val = [n.target], n.value
+        if tg is None:
+            continue
+        mutable = isinstance(val, (ast.List, ast.Dict, ast.Set, ast.ListComp, ast.DictComp, ast.SetComp)) or \
+            (isinstance(val, ast.Call) and isinstance(val.func, ast.Name) and
+             val.func.id in ("list", "dict", "set", "bytearray", "defaultdict", "OrderedDict", "deque", "Counter"))
+        if mutable:
+            for t in tg:
+                shared.append(t.id if isinstance(t, ast.Name) else "?")
+    table.append(["<class-level mutable attributes>", sorted(shared)])
     return table
 
 
